@@ -258,19 +258,12 @@ func checkC13(p *core.Program, r *core.Report) {
 		if c.Action.Node == nil {
 			continue
 		}
-		info := c.Pkg.TypesInfo
-		var runCall *ast.CallExpr
-		ast.Inspect(c.Action.Node, func(n ast.Node) bool {
-			if call, ok := n.(*ast.CallExpr); ok {
-				if fn, _ := typeutil.Callee(info, call).(*types.Func); fn != nil && fn == runObj {
-					runCall = call
-				}
-			}
-			return true
-		})
+		su, runCall, _ := servingUnit(ix, c, runObj)
 		if runCall == nil {
 			continue
 		}
+		c.Action = su
+		info := su.Pkg.TypesInfo
 		r.Count("CLI server commands", 1)
 		gph := flow.NewGraph(c.Action)
 		runLoc, ok := gph.Locate(runCall)
